@@ -2457,3 +2457,12 @@ variant('b-close-waits-for-the-reconnect-listener', ['C11'], 'rsocket/rsocket_cl
 variant('b-receiver-waits-for-the-watchdog-cycle', ['C11'], 'rsocket/rsocket_client.py',
         "            if keepalive_timeout_task is not None:\n                keepalive_timeout_task.cancel()",
         "            await cancel_if_task_exists(keepalive_timeout_task)", ('C11.p', 'wait cycle'))
+
+# C04.l short fields fail
+variant('b-position-decoded-leniently', ['C04', 'C12'], 'rsocket/frame_helpers.py',
+        "        return struct.unpack('>Q', chunk)[0] & MASK_63_BITS", "        return int.from_bytes(chunk, 'big') & MASK_63_BITS",
+        ('C04.l', 'unpack_position'))
+variant('t-position-decoded-leniently-behind-a-length-test', ['C04'], 'rsocket/frame_helpers.py',
+        "        return struct.unpack('>Q', chunk)[0] & MASK_63_BITS",
+        "        if len(chunk) != 8:\n            raise struct.error('position needs 8 bytes')\n        return int.from_bytes(chunk, 'big') & MASK_63_BITS",
+        kind='twin')
